@@ -298,6 +298,11 @@ class Python312InstrumentationInstructionsGenerator(
         lineno: int | _UNSET | None,
     ) -> tuple[cf.ArtificialInstr, ...]:
         match arg:
+            case InstrumentationFastLoad(name):
+                # Starting with Python 3.12, LOAD_FAST pushes NULL for an unbound local variable,
+                # which crashes the interpreter as soon as it is passed to a call. The checked
+                # variant raises an UnboundLocalError instead, like the instruction it observes.
+                return (cf.ArtificialInstr("LOAD_FAST_CHECK", name, lineno=lineno),)
             case InstrumentationClassDeref(name):
                 return (
                     cf.ArtificialInstr("LOAD_LOCALS", lineno=lineno),
@@ -397,6 +402,16 @@ class CheckedCoverageInstrumentation(python3_11.CheckedCoverageInstrumentation):
         instr_index: int,
         instr_original_index: int,
     ) -> None:
+        # An inlined comprehension saves the variables it shadows with LOAD_FAST_AND_CLEAR and
+        # restores them afterwards with STORE_FAST. Such a variable may be unbound at both
+        # places, so its value must not be read there.
+        value: InstrumentationArgument = (
+            InstrumentationConstantLoad(value=None)
+            if instr.name == "LOAD_FAST_AND_CLEAR"
+            or self._restores_cleared_variable(cfg, node, instr, instr_index)
+            else InstrumentationFastLoad(name=instr.arg)  # type: ignore[arg-type]
+        )
+
         instructions = self.instructions_generator.generate_instructions(
             InstrumentationSetupAction.NO_ACTION,
             InstrumentationMethodCall(
@@ -410,7 +425,7 @@ class CheckedCoverageInstrumentation(python3_11.CheckedCoverageInstrumentation):
                     InstrumentationConstantLoad(value=instr.lineno),
                     InstrumentationConstantLoad(value=instr_original_index),
                     InstrumentationConstantLoad(value=instr.arg),  # type: ignore[arg-type]
-                    InstrumentationFastLoad(name=instr.arg),  # type: ignore[arg-type]
+                    value,
                 ),
             ),
             instr.lineno,
@@ -424,6 +439,52 @@ class CheckedCoverageInstrumentation(python3_11.CheckedCoverageInstrumentation):
             case "LOAD_FAST" | "LOAD_FAST_CHECK" | "STORE_FAST":
                 # Instrumentation after the original instruction
                 node.basic_block[node.after(instr_index)] = instructions
+
+    @staticmethod
+    def _restores_cleared_variable(
+        cfg: cf.CFG,
+        node: cf.BasicBlockNode,
+        instr: Instr,
+        instr_index: int,
+    ) -> bool:
+        """Check if a STORE_FAST restores a variable saved by LOAD_FAST_AND_CLEAR.
+
+        The compiler restores the variables shadowed by an inlined comprehension with a
+        `SWAP` followed by one `STORE_FAST` per saved variable. The restored value is
+        NULL if the variable was unbound before the comprehension.
+
+        Args:
+            cfg: The control flow graph.
+            node: The node in the control flow graph.
+            instr: The instruction to check.
+            instr_index: The index of the instruction in the basic block.
+
+        Returns:
+            True if the instruction may store NULL, False otherwise.
+        """
+        if instr.name != "STORE_FAST":
+            return False
+
+        cleared_names = {
+            other.arg
+            for block in cfg.bytecode_cfg
+            for other in block
+            if isinstance(other, Instr) and other.name == "LOAD_FAST_AND_CLEAR"
+        }
+        if instr.arg not in cleared_names:
+            return False
+
+        previous_originals = [
+            other
+            for other in tuple(node.instructions)[:instr_index]
+            if not isinstance(other, cf.ArtificialInstr)
+        ]
+        for previous in reversed(previous_originals):
+            if previous.name == "SWAP":
+                return True
+            if previous.name != "STORE_FAST" or previous.arg not in cleared_names:
+                return False
+        return False
 
     def visit_attr_access(  # noqa: D102, PLR0917
         self,
